@@ -518,3 +518,6 @@ func Quiesce() {
 // Run executes body once under the scheduler with the default choice (0) at every point: the
 // canonical schedule (keep running the current thread; when it blocks, the lowest enabled id).
 func Run(body func()) Result { return runOnce(nil, body) }
+
+// Replay executes body once, following the recorded choices (a divergence panics).
+func Replay(choices []int, body func()) Result { return runOnce(choices, body) }
